@@ -1,4 +1,5 @@
 """Per-property configuration of the checks."""
+import s2c
 
 STATEFUL = {'Toggle', 'SetTZ'}
 
@@ -32,9 +33,18 @@ PROPS = {
     'C13': {'rule': 'Construct / SetThenMarshal events around every constraint of every constrained argument, CharBlock events '
                     '(4096 code points each) over all of Unicode, crafted frames with refused values decoded'},
     'C19': {'rule': 'one Observe event per object (constructed, after setattr, decoded) for all 64 classes + Basic.Properties'},
-    'C20': {'rule': 'FrameParts on buffers of length 0..16, every value of each header byte, Peek on encoded frames + tails'},
+    'C20': {'rule': 'FrameParts on buffers of length 0..16, every value of each header byte, Peek on encoded frames + tails, '
+                    'stream sessions with the size-reading receiver walked by Stream.tla (Mode = peek)',
+            'mc': _mc({'module': 'MC_Stream', 'cfg': 'MC_Stream_peek', 'tier': 'both', 'actions': ['Send', 'DoDeliver', 'PeekRead']},
+                      {'module': 'MC_Stream', 'cfg': 'MC_Stream_peek3', 'tier': 'thorough'})},
     'C08': {'rule': 'one Unmarshal event per input under the decoder-step budget ImplBound(n)=16n+256 (sys.setprofile); inputs: '
                     'single-byte corruptions, rewritten length fields / flag words, truncated payloads in valid envelopes, '
                     'grammar-directed faults, nesting <= 64, random strings; peak memory measured on every 10th'},
     'C09': {'rule': 'same corpus as C08; the clause only looks at the type of the exception that left frame.unmarshal'},
+    'C06': {'rule': 'S2C: every distinct receiver buffer of the exhaustive Stream model decoded by the real code; C2S: stream '
+                    'sessions (Send / Deliver k / TryDecode) walked by the Stream state machine inside the trace spec; complete '
+                    'frames followed by 14 kinds of tail; fuzz inputs for the envelope clause',
+            'mc': _mc({'module': 'MC_Stream', 'cfg': 'MC_Stream', 'tier': 'both', 'actions': ['Send', 'DoDeliver', 'TryDecode']},
+                      {'module': 'MC_Stream', 'cfg': 'MC_Stream_3', 'tier': 'thorough'}),
+            'gen': s2c.gen_stream},
 }
